@@ -863,6 +863,23 @@ func ghostMapRegion(gm *GhostMap) (string, string, string) {
 func (x *Exec) applyGhostSet(st, old *State, c *Clause, pkg *types.Package, env map[string]Val) {
 	if i := strings.Index(c.Targets[0], "("); i > 0 {
 		name := strings.TrimSpace(c.Targets[0][:i])
+		if name == "chanSent" || name == "chanRecvd" {
+			keyText := strings.TrimSuffix(strings.TrimSpace(c.Targets[0][i+1:]), ")")
+			kn, err := parseSpec(keyText)
+			if err != nil {
+				x.unsupported("ghostset %s: %v", name, err)
+				return
+			}
+			sc := &specCtx{x: x, pkg: pkg, env: env, st: st, old: old}
+			kv := sc.node(kn)
+			vv := sc.node(c.Expr)
+			if vv.Const != nil {
+				vv = sc.coerce(vv, types.Typ[types.Int])
+			}
+			reg := map[string]string{"chanSent": "chan.sent", "chanRecvd": "chan.recvd"}[name]
+			x.heapWrite(st, reg, SBV64, kv.L[0], "", vv.L[0])
+			return
+		}
 		gm := x.prog.contracts.GhostMaps[name]
 		if gm == nil {
 			x.unsupported("ghostset: unknown ghost map %s", name)
